@@ -63,7 +63,7 @@ def centring_offenders():
     txt = re.sub(r"\s+", " ", out)
     offs = []
     names = ["shape", "inverse", "lattice", "n_centring_vectors", "determinant", "centring_class"]
-    for m in re.finditer(r"\((\d+)%Z, \[([^\]]*)\]\)", txt):
+    for m in re.finditer(r"\((\d+)(?:%Z)?, \[([^\]]*)\]\)", txt):
         bits = [x.strip() == "true" for x in m.group(2).split(";")]
         offs.append({"sg": int(m.group(1)), "failed": [n for n, b in zip(names, bits) if not b]})
     return offs, None
@@ -114,6 +114,7 @@ def run(ctx):
         cases += fam0
     fam, disc = W.family(ctx, build["tables"], per_group)
     cases += fam
+    cases += W.off_family(ctx, 30 if ctx.tier == "quick" else 300)
     rows, nviol = W.correspond(ctx, "C12", cases, W.c12_term, c12_failures, nontrivial_c12, build, broken)
     ctx.coverage["input_distribution"]["discarded_unstable_or_higher_symmetry"] = disc
     # the centring letter the code dispatches on is the reference one
